@@ -242,3 +242,43 @@ def midi_precondition(tracks):
                 if b[0] <= a[1]:
                     return False
     return True
+
+
+# --------------------------------------------------------------------------------------------
+# voices stored by the MIDI importer: partitions of the file's notes
+
+NO_VOICE_MODES = (1, 3, 4, 5)  # assign modes documented as "no voices" / "without voices"
+
+
+def file_note_order(tracks, ppq):
+    """The notes of a file written by write_midi as (onset tick, pitch, duration tick, track,
+    channel), in file order: by track, then channel, then by the position of the event that ends
+    the note (write_midi: note_offs by note index, then zero-length notes, at one tick)."""
+    out = []
+    for ti, notes in enumerate(tracks):
+        keyed = []
+        for i, (ch, o, d, p) in enumerate(notes):
+            keyed.append(((ch, (o + d) * ppq, 0 if d > 0 else 1, i), (o * ppq, p, d * ppq, ti, ch)))
+        keyed.sort(key=lambda t: t[0])
+        out.extend(v for _, v in keyed)
+    return out
+
+
+def part_group_of(mode, track, channel):
+    """Which notes share a part under a no-voice assign mode (from the documented semantics)."""
+    if mode == 4:
+        return 0
+    if mode == 3:
+        return track
+    if mode in (1, 5):
+        return (track, channel)
+    raise ValueError(mode)
+
+
+def canon_partition(keys, labels):
+    """Partition of notes (given by hashable, sortable keys; equal keys are interchangeable) into
+    the blocks of equal label, as a sorted tuple of sorted tuples - independent of label values."""
+    blocks = {}
+    for k, lab in zip(keys, labels):
+        blocks.setdefault(lab, []).append(k)
+    return tuple(sorted(tuple(sorted(b)) for b in blocks.values()))
